@@ -151,13 +151,13 @@ type c39SM interface {
 }
 
 type c39Stats struct {
-	acceptedIdle, acceptedDelta, acceptedAfterSwitch, fencedRefused          atomic.Int64
-	nonOwnerRefusedTarget, nonOwnerRefusedSource, nonOwnerRefusedAfterClean atomic.Int64
-	delivered, dupDelivered, ackLost, redelivered, reorderOtherKey           atomic.Int64
-	reorderSameKey, reorderSameKeyStale, preSnapshotDelta, fenceMarker      atomic.Int64
-	replays, replaysAfterRestart, replaysAfterSwitch, restarts               atomic.Int64
+	acceptedIdle, acceptedDelta, acceptedAfterSwitch, fencedRefused           atomic.Int64
+	nonOwnerRefusedTarget, nonOwnerRefusedSource, nonOwnerRefusedAfterClean   atomic.Int64
+	delivered, dupDelivered, ackLost, redelivered, reorderOtherKey            atomic.Int64
+	reorderSameKey, reorderSameKeyStale, preSnapshotDelta, fenceMarker        atomic.Int64
+	replays, replaysAfterRestart, replaysAfterSwitch, restarts                atomic.Int64
 	snaps, resnaps, switches, switchesWithDelta, switchesFenceFirst, cleanups atomic.Int64
-	forwardsChecked, createNoop                                             atomic.Int64
+	forwardsChecked, createNoop                                               atomic.Int64
 }
 
 type c39Delta struct {
@@ -180,7 +180,7 @@ type c39Inst struct {
 	started, imported, switched, cleaned bool
 	snaps                                int
 	maxSnaps                             int
-	writes                               []string // write events of the delta phase / of the new owner
+	writes                               []string            // write events of the delta phase / of the new owner
 	fwd                                  []multiraft.Command // commands handed to the real delta forwarder during the current event
 	fwdTarget                            []multiraft.SlotID
 
@@ -894,15 +894,15 @@ func (in *c39Inst) Canon() string {
 	}
 	c := struct {
 		Started, Imported, Switched, Cleaned, Reordered bool
-		Snaps                                          int
-		Ver                                            [3]int
-		Src, Tgt, Model                                map[string]string
-		HasState                                       bool
-		Phase                                          uint8
-		Fence, LastOut, LastAck, SnapIdx               int
-		Outbox, Hist                                   []rl
-		AppliedOnT                                     []int
-		DeltaWrites                                    bool
+		Snaps                                           int
+		Ver                                             [3]int
+		Src, Tgt, Model                                 map[string]string
+		HasState                                        bool
+		Phase                                           uint8
+		Fence, LastOut, LastAck, SnapIdx                int
+		Outbox, Hist                                    []rl
+		AppliedOnT                                      []int
+		DeltaWrites                                     bool
 	}{Started: in.started, Imported: in.imported, Switched: in.switched, Cleaned: in.cleaned, Reordered: in.reordered, Snaps: in.snaps, Ver: in.ver,
 		Src: in.users(in.a.S), Tgt: in.users(in.a.T), Model: in.model, HasState: hasState, Phase: st.Phase,
 		Fence: rank(st.FenceIndex), LastOut: rank(st.LastOutboxIndex), LastAck: rank(st.LastAckedIndex), SnapIdx: rank(in.snapIdx), DeltaWrites: in.deltaWrites > 0}
